@@ -1,0 +1,92 @@
+//go:build verif
+
+package simhook
+
+import (
+	"context"
+	"net"
+	"sync/atomic"
+)
+
+// Enabled reports whether the package was built with the verif tag.
+const Enabled = true
+
+// Simulator is implemented by the external deterministic simulator.
+type Simulator interface {
+	Fork() uint64
+	Start(tok uint64)
+	Enter(label string)
+	Exit()
+	Yield(label string)
+	Order(n int, key func(i int) string) []int
+	NetDial() func(ctx context.Context, network, addr string) (net.Conn, error)
+}
+
+type holder struct{ s Simulator }
+
+var current atomic.Value
+
+// Register installs (or with nil removes) the simulator.
+func Register(s Simulator) {
+	current.Store(&holder{s: s})
+}
+
+func get() Simulator {
+	h, _ := current.Load().(*holder)
+	if h == nil {
+		return nil
+	}
+	return h.s
+}
+
+// Fork is called by a goroutine right before it spawns another one.
+func Fork() uint64 {
+	if s := get(); s != nil {
+		return s.Fork()
+	}
+	return 0
+}
+
+// Start is the first call in the body of a goroutine announced by Fork.
+func Start(tok uint64) {
+	if s := get(); s != nil {
+		s.Start(tok)
+	}
+}
+
+// Enter is the first call in the body of a goroutine which is identified by content.
+func Enter(label string) {
+	if s := get(); s != nil {
+		s.Enter(label)
+	}
+}
+
+// Exit is deferred by goroutines that called Start or Enter.
+func Exit() {
+	if s := get(); s != nil {
+		s.Exit()
+	}
+}
+
+// Yield marks an interleaving point.
+func Yield(label string) {
+	if s := get(); s != nil {
+		s.Yield(label)
+	}
+}
+
+// Order returns the order in which n items should be visited, nil means as they are.
+func Order(n int, key func(i int) string) []int {
+	if s := get(); s != nil {
+		return s.Order(n, key)
+	}
+	return nil
+}
+
+// NetDial returns the dial function for outgoing stream connections, nil means default.
+func NetDial() func(ctx context.Context, network, addr string) (net.Conn, error) {
+	if s := get(); s != nil {
+		return s.NetDial()
+	}
+	return nil
+}
